@@ -2,7 +2,7 @@
    Statements only; each closed by [exact] of a lemma proved in Json/*P.v. *)
 From Coq Require Import List NArith ZArith.
 From PB Require Import Base.PBytes Json.JsonGrammar Json.JsonNumModel Json.JsonNumP Json.JsonIntP
-  Json.JsonLexModel Json.JsonLexP Json.JsonScalarModel Json.JsonScalarP.
+  Json.JsonLexModel Json.JsonLexP Json.JsonEncModel Json.JsonScalarModel Json.JsonScalarP Json.JsonB64P Json.JsonInt64P.
 Import ListNotations.
 Open Scope N_scope.
 
@@ -101,6 +101,42 @@ Theorem C22_float_decode_is_oracle :
     match parse_float bits (t_raw tok) with Some b => Some (FNum b) | None => None end.
 Proof. exact float_decode_is_oracle. Qed.
 Print Assumptions C22_float_decode_is_oracle.
+
+(* 64-bit integers are written as JSON strings (one WriteString call whose bytes are the quoted
+   decimal value, nothing to escape) and the string token read back decodes to the same value *)
+Theorem C22_int64_written_as_string :
+  forall rnd e z, int_in_range 64 true z ->
+    marshal_int 64 z = CString (dec_int z) /\
+    fst (enc_call rnd (marshal_int 64 z) e) = emit (c_quote :: dec_int z ++ [c_quote]) (prepare_next rnd EKScalar e) /\
+    (forall pos rest, parse_string_at pos ((c_quote :: dec_int z ++ [c_quote]) ++ rest)
+                      = Ok (dec_int z, length (c_quote :: dec_int z ++ [c_quote]))) /\
+    (forall raw pos, unmarshal_int 64 (string_token raw (dec_int z) pos) = Some z).
+Proof. exact int64_written_as_string. Qed.
+Print Assumptions C22_int64_written_as_string.
+
+Theorem C22_uint64_written_as_string :
+  forall rnd e n, n < 2 ^ 64 ->
+    marshal_uint 64 n = CString (dec_digits n) /\
+    fst (enc_call rnd (marshal_uint 64 n) e) = emit (c_quote :: dec_digits n ++ [c_quote]) (prepare_next rnd EKScalar e) /\
+    (forall raw pos, unmarshal_uint 64 (string_token raw (dec_digits n) pos) = Some n).
+Proof. exact uint64_written_as_string. Qed.
+Print Assumptions C22_uint64_written_as_string.
+
+Theorem C22_int32_written_as_number :
+  forall rnd e z, int_in_range 32 true z ->
+    fst (enc_call rnd (marshal_int 32 z) e) = emit (dec_int z) (prepare_next rnd EKScalar e) /\
+    token_int 32 (dec_int z) = Some z.
+Proof. exact int32_written_as_number. Qed.
+Print Assumptions C22_int32_written_as_number.
+
+(* bytes: marshalSingular writes padded standard base64 ([marshal_bytes b = CString
+   (b64_encode false b)]); unmarshalBytes, through its variant selection, reads it back.
+   (Acceptance of the URL-safe and unpadded variants on input is checked by the harness
+   against encoding/base64; the decoder model [b64_decode] covers all four variants.) *)
+Theorem C22_bytes_base64_roundtrip :
+  forall b tok, t_kind tok = KString -> t_str tok = b64_encode false b -> unmarshal_bytes tok = Some b.
+Proof. exact bytes_base64_roundtrip. Qed.
+Print Assumptions C22_bytes_base64_roundtrip.
 
 (* non-vacuity: notations of 100 into int32, and both F6 witnesses are in the class *)
 Example C22_ex_1e2 :
